@@ -45,7 +45,7 @@ class Probe:
 
 
 def random_system(rng, d, kind, probe=None, tshift=0.0, n_lind=None,
-                  switch_on=None):
+                  switch_on=None, drive_period=None):
     """kind: 'const' | 'td'. Returns dict with the oqupy system, a reference
     Liouvillian function liou(t) (own implementation), flag td.
     tshift: the explicit time dependence is f(t - tshift)."""
@@ -64,6 +64,12 @@ def random_system(rng, d, kind, probe=None, tshift=0.0, n_lind=None,
         sysm = oqupy.System(h0, g0, a0)
         return dict(oq=sysm, liou=liou, td=False, d=d, h0=h0, nl=nl,
                     g0=g0, a0=a0)
+
+    if drive_period is not None:
+        # a drive whose period is a fraction of the time step: the
+        # Hamiltonian takes the same value at both ends of every half step
+        # without being constant in between
+        w = 2 * np.pi / drive_period
 
     def hfun(t):
         return h0 + np.cos(w * (t - tshift) + phi) * h1
